@@ -78,6 +78,8 @@ def gen_value(rng, kind):
         return f'{n}/{dd}'
     if kind == 'float':
         return {'f': rng.choice([-2.5, -1.25, -0.5, 0.5, 0.75, 1.5, 2.0, 3.25])}
+    if kind == 'nd':
+        return {'nd': [rng.choice([-2.0, -1.0, 0.5, 1.0, 2.0, 3.0]) for _ in range(3)], 'dt': 'float64'}
     raise ValueError(kind)
 
 
@@ -409,6 +411,10 @@ TWIN_POLICIES = [p for p in POLICIES if p['kind'] == 'pctc'] * 2 + [
     {'kind': 'crit', 'p_crit': 0.3, 'p_base': 0.002}, {'kind': 'walk', 'p': 0.02}]
 
 
+def _has_prev(op):
+    return any(a.get('k') == 'prev' for a in op.get('args', []))
+
+
 def twin_of(rng, prog, algebras, pools):
     """The same program with operand key orders permuted and/or moved to another algebra of the same
     dimension: two callers that generate *colliding* patterns at the same time (race-directed arm)."""
@@ -440,6 +446,10 @@ def twin_of(rng, prog, algebras, pools):
             op['alg'] = swap
         for a in op.get('args', []):
             perm(a)
+    for op in out:
+        for a in op.get('args', []):
+            if a.get('k') == 'prev':
+                a['op'] = copy.deepcopy(out[a['i']])
     return out
 
 
@@ -469,7 +479,7 @@ def gen_trace(rng, tier='quick', crit_names=(), arm=None):
 
     n_callers = rng.choices([1, 2, 3, 4], weights=[0.3, 0.35, 0.25, 0.1])[0]
     ctx = dict(
-        valkind=rng.choices(['int', 'Fraction', 'float', 'mixed'], weights=[0.55, 0.15, 0.15, 0.15])[0],
+        valkind=rng.choices(['int', 'Fraction', 'float', 'mixed', 'nd'], weights=[0.5, 0.14, 0.14, 0.14, 0.08])[0],
         p_sym=rng.choice([0, 0, 0.1, 0.25]),
         pools=pools,
         shared_by_alg={}, shared_syms={}, regs_by_alg={},
@@ -513,12 +523,22 @@ def gen_trace(rng, tier='quick', crit_names=(), arm=None):
             shared.append(spec)
 
     callers = []
+    p_chain = rng.choice([0, 0, 0.1, 0.25])
     for c in range(n_callers):
         n_ops = rng.randint(3, 10 if not big else 5)
         prog = []
         for _ in range(n_ops):
             ai = rng.randrange(len(algebras)) if rng.random() < 0.7 else 0
-            prog.append(gen_op(rng, ai, pools[ai], ctx))
+            op = gen_op(rng, ai, pools[ai], ctx)
+            # an operand may be the multivector returned by an earlier operation of this caller
+            earlier = [j for j, o in enumerate(prog) if o['alg'] == ai and o['kind'] in ('bin', 'un')
+                       and not _has_prev(o) and not any(a.get('k') in ('list', 'other') for a in o.get('args', []))]
+            if earlier and op['kind'] in ('bin', 'un', 'meth', 'reg') and rng.random() < p_chain:
+                j = rng.choice(earlier)
+                slot = rng.randrange(len(op['args']))
+                if op['args'][slot].get('k') not in ('num',):
+                    op['args'][slot] = {'k': 'prev', 'i': j, 'op': prog[j]}
+            prog.append(op)
         callers.append(prog)
 
     twins = False
